@@ -227,10 +227,15 @@ func (sr *ServiceRouter) updateRoutes(desc *bridgedesc.Target) {
 		svc := &desc.Services[i]
 
 		// Add new routes
-		route, ok := sr.routes.LoadOrStore(svc.Name, serviceRoute{target: desc, service: svc})
+		newRoute := serviceRoute{target: desc, service: svc}
+
+		route, ok := sr.routes.LoadOrStore(svc.Name, newRoute)
 		if !ok {
 			sr.logger.Debug("adding route", "target", desc.Name, "service", svc.Name)
-		} else if ok && route.(serviceRoute).target.Name != desc.Name {
+		} else if route.(serviceRoute).target.Name == desc.Name {
+			// Same target, refresh the route so that it points to the new description instead of the outdated one.
+			sr.routes.Store(svc.Name, newRoute)
+		} else {
 			// Since this router has no way to distinguish which routes go where,
 			// it's better to avoid overwriting a route due to some accidental mistake by the user.
 			sr.logger.Warn("ServiceRouter encountered gRPC service route conflict, keeping previous route",
